@@ -259,4 +259,70 @@ CHECKS = {
                          "RFC side: coq/theories/Spec/C06Spec.v (layout figures, rfc_alc_encode, rfc_alc_decode, P_C06_*)",
                          "the harness obtains RFC-encoded packets by running ocaml/build/c06_driver --encode (extracted rfc_alc_encode)"],
     },
+    "C01": {
+        "extract": "C09", "driver": "c09",
+        "runs": [{"subcmd": "session", "shards_quick": 8, "shards_thorough": 16, "driver_args": ["c01"]}],
+        "run_timeout_quick": 900,
+        "rule": 'V lines (clean channel): one real sender -> receiver session per line with every emitted packet pushed in order into a receiver whose writers always store: {No-Code, RS28, RS28-US, RaptorQ, Raptor} x E {4,8,16,64} x B x parity x cenc {null,zlib,deflate,gzip} x in-band/FDT-only FTI and CENC x {FullFDT, ObjectsBeingTransferred} x interleave 1..4 x multiplex 0..3 over one or two priority queues x 1..4 objects (sizes 0, 1, E-1, E, E+1, E*B, E*B+1, several unequal blocks, at and above 255 blocks) x transfer count 1..3 x receive-once on/off x buffer/stream/file sources x metadata variants (content types with non-ASCII and XML-special characters, groups, ETag, cache directives, session groups). Non-trivial = at least one writer was created; distinct = distinct session lines.',
+        "level_text": "Evaluated on every run by P_C01_object over real sessions and tied to the sender/receiver models op by op; proved: the sender emits every encoding symbol of every block once and in order and ends normally (C08), stream/file sources equal the buffer source (C20), the No-Code decoder keeps the first copy of a symbol and a completed block is the concatenation of its stored symbols. The composition theorem C01_clean_channel_full is stated, not proved (partial). The filesystem-writer clause is covered by C05's P_C05_complete_stored.",
+        "explanation": "P_C01_object on every accepted object (exactly the expected number of complete copies, each byte-exact with the metadata the sender was given, no failed writer), add_object refusals compared with the model of FileDesc::new (transfer length above the scheme's maximum, unencodable blocks); recorded classes D20 and D35.",
+        "assumptions": ["FEC reconstruction, inflate and FdtInstance::parse are oracles answered from the session's ground truth",
+                        "packets are compared after flute's own ALC parser (C06)", "the composition theorem sender model -> channel -> receiver model is stated, not proved"],
+        "trusted_base": ["models: coq/theories/Model/ObjRecv.v, Recv.v, BlockEnc.v, SenderCtl.v; predicates: coq/theories/Spec/SessionSpec.v"],
+    },
+    "C02": {
+        "extract": "C09", "driver": "c09",
+        "runs": [{"subcmd": "loss", "shards_quick": 8, "shards_thorough": 16, "driver_args": ["c02"]}],
+        "run_timeout_quick": 900,
+        "rule": 'V lines (order-preserving loss/duplication): every subset (bit mask) of the first 11 (quick) / 13 (thorough) packets of small sessions per scheme {No-Code, RS28, RS28-US, RaptorQ} x 4 shapes (blocks of equal and unequal sizes, interleave 1..2, in-band/FDT-only OTI, transfer count 1..2), plus seeded random loss, loss+duplication and duplication of larger sessions over all five schemes, cenc, signalling modes, publish modes, interleave 1..4, transfer count 1..3. Non-trivial = the recoverability premise held for at least one object; distinct = distinct session lines.',
+        "level_text": 'Evaluated on every run; proved: a block reassembles iff all its source symbols are stored (concat_src_spec), duplicates never change what is stored, completed/failed objects ignore further packets. C02_recoverable_delivers_full is stated, not proved (partial). Stated premises: writers succeed, no drop/cleanup in between, genuine FDT, default cache limit.',
+        "explanation": 'P_C02_object: whenever blocks_recoverable (k distinct symbols per block for Reed-Solomon, all k source symbols otherwise) and a complete FDT instance listing the object arrived, some writer of the object is completed byte-exact.',
+        "assumptions": ["FEC reconstruction, inflate and FdtInstance::parse are oracles answered from the session's ground truth",
+                        "packets are compared after flute's own ALC parser (C06)", "the composition theorem sender model -> channel -> receiver model is stated, not proved"],
+        "trusted_base": ["models: coq/theories/Model/ObjRecv.v, Recv.v, BlockEnc.v, SenderCtl.v; predicates: coq/theories/Spec/SessionSpec.v"],
+    },
+    "C16": {
+        "extract": "C09", "driver": "c09",
+        "runs": [{"subcmd": "carousel", "shards_quick": 8, "shards_thorough": 16, "driver_args": ["c16"]}],
+        "run_timeout_quick": 900,
+        "rule": 'V lines (late join): carousel sessions (object carousel delay 0 / 50 ms / interval 100 ms, FDT carousel 0/40/100 ms, 1..3 objects, all five schemes, in-band / FDT-only OTI and CENC, both publish modes) read for several cycles under a virtual clock; the receiver joins at every packet offset 0..49 (quick) / 0..79 (thorough) of the stream and receives the rest without loss. Non-trivial = the premise (all source symbols and a complete FDT instance in the suffix) held; distinct = distinct (session, offset) lines.',
+        "level_text": 'Evaluated on every run for every join offset; proved: a carousel object is never finished (queued again after each transfer), completed objects ignore packets, a block completes exactly when all its source symbols are stored whatever the order across cycles. C16_late_join_delivers_full is stated, not proved (partial).',
+        "explanation": 'P_C02_object with the premise computed on the suffix: every carouselled object is completed byte-exact.',
+        "assumptions": ["FEC reconstruction, inflate and FdtInstance::parse are oracles answered from the session's ground truth",
+                        "packets are compared after flute's own ALC parser (C06)", "the composition theorem sender model -> channel -> receiver model is stated, not proved"],
+        "trusted_base": ["models: coq/theories/Model/ObjRecv.v, Recv.v, BlockEnc.v, SenderCtl.v; predicates: coq/theories/Spec/SessionSpec.v"],
+    },
+    "C19": {
+        "runs": [{"subcmd": "expiry", "shards_quick": 2, "shards_thorough": 8}],
+        "rule": "S lines: real Sender->Receiver sessions under VIRTUAL clocks (the `now` arguments of Sender::publish/read and "
+                "Receiver::push_data/cleanup): grid over FDT duration {5 s..1 day} x margin of the estimate around the expiry "
+                "instant {+-2.001 s .. +-1 h; the +-2 s band excluded} x objects before/after the FDT x SCT on/off x expiry check "
+                "on/off x receiver clock skew {0, +-1 s, +-1 h, +-1 y, +-30 y (+ more in thorough)}, random sub-second publication "
+                "phase, transit delay, cleanup after every push or never, FDT of one or several packets, 1-2 objects, refreshed "
+                "instances delivered or dropped; every session is run twice (with the skew and with skew 0). R lines: seeded scripts of "
+                "hand-built packets fed to Receiver: 1-12 FDT instances (hand-written XML; Expires malformed / out of u32 / pre-1970 / "
+                "missing in ~25%), 1-4 symbols per instance, SCT uniform or mixed per instance, re-receptions, receive-once on/off, "
+                "objects of two symbols before/after/between instances, cleanup, clocks jumping backwards, receiver clocks at the edge "
+                "of chrono's range (panic expected exactly there); every script is run twice (receiver times shifted by +-1 s..+-40 y). "
+                "N/M lines: tools::system_time_to_ntp / ntp_to_system_time on boundary and random values. A case is non-trivial when "
+                "its stream contains at least one FDT packet with usable content and at least one object packet (N/M: always); "
+                "distinct = distinct input lines (digest of the input part).",
+        "exhaustive_quick": False, "exhaustive_thorough": False,
+        "level_text": "Theorems C19_* (16, closed): the (late flag, magnitude) offset equals the signed difference; with SCT present the expiry decision and the whole run are invariant under every receiver clock shift; without SCT the receiver's own clock is used; with the check disabled expiry is ignored; by induction over all event lists every writer is opened only through an instance unexpired by the estimate at that instant, and an object announced only by expired instances gets no callback at all. Tied to fdtreceiver.rs / receiver.rs / tools by scripted FDT/object streams and real sessions under virtual sender and receiver clocks with skews up to +-30 years.",
+        "explanation": "Theorems C19_* proved for all event streams (induction over event lists), all receiver clock offsets d : Z and "
+                       "all session parameters on the Gallina model of fdtreceiver.rs / receiver.rs / tools/mod.rs. The model is tied to "
+                       "the code by feeding the same packets to the real Receiver (monitoring ObjectWriterBuilder) and comparing the "
+                       "writer callbacks per event with the extracted model; the event stream is recovered from the bytes on the wire "
+                       "(SCT by an independent RFC 5651 header walk). P_C19_sound / P_C19_silent / P_C19_same / P_C19_session "
+                       "(Coq-defined, extracted) are evaluated on the implementation's callbacks.",
+        "assumptions": ["model of fdtreceiver.rs / receiver.rs / tools/mod.rs is hand-written; faithfulness established by the correspondence run only",
+                        "the data path of an object is an oracle: the instant an object completes / fails is an event (EvObjEnd) taken from the observed callbacks",
+                        "the XML parser is an oracle: (Expires string, TOI list) of an instance is read from the XML text by the harness",
+                        "writer opened = attach succeeded: holds when the FDT carries the FEC-OTI of the object (always for flute's sender)",
+                        "max_objects_error = 0 (default) and object_timeout = None in the harness; the Instant-based object time-out is the model event EvObjEnd _ Fail, not exercised by the harness",
+                        "SystemTime modelled as i64 seconds + nanoseconds (Linux); chrono range = DateTime::<Utc>::MIN_UTC..MAX_UTC of chrono 0.4",
+                        "P_C19_sound / P_C19_silent are evaluated only on streams whose instances are uniform in SCT presence (what one fdt_inband_sct setting produces); mixed streams are compared with the model only"],
+        "trusted_base": ["model: coq/theories/Model/Expiry.v (system_time_to_ntp, ntp_to_system_time, parse_u32, fdt_push, update_expired_state, push_fdt, push_obj, obj_end, cleanup, run)",
+                         "spec: coq/theories/Spec/C19Spec.v (estimate, pkt_justifies, P_C19_sound, P_C19_silent, P_C19_same, P_C19_session, session_events)"],
+    },
 }
